@@ -12,6 +12,8 @@
 package c05
 
 import (
+	"fmt"
+	"os"
 	"sort"
 	"strings"
 
@@ -785,6 +787,8 @@ var inputRewrites = []inputRewrite{
 
 const maxRewriteDepth = 4
 
+var debugClassify = os.Getenv("VERIF_C05_DEBUG") != ""
+
 // repairOutput applies every output repair whose signature matches; applied lists the findings whose
 // repair changed something.
 func repairOutput(c Case, out string) (repaired string, applied []string) {
@@ -846,6 +850,9 @@ func classify(c Case, out string, refTrace, gotTrace string, depth int) string {
 			continue
 		}
 		ref2, err := W.Script(code2, false)
+		if debugClassify {
+			fmt.Printf("classify depth=%d rewrite %s n=%d nativeSame=%v\n", depth, f.id, n, err == nil && ref2.Trace() == refTrace)
+		}
 		if err != nil || ref2.Trace() != refTrace {
 			continue // V8 does not confirm that the rewrite is an equivalent spelling here
 		}
@@ -857,6 +864,9 @@ func classify(c Case, out string, refTrace, gotTrace string, depth int) string {
 			if strings.HasPrefix(cl, "esbuild-refused") {
 				refused = true
 			}
+		}
+		if debugClassify {
+			fmt.Printf("classify depth=%d rewrite %s -> ok=%v known=%q discard=%q refused=%v sameObserved=%v\n", depth, f.id, v2.OK, v2.Known, v2.Discard, refused, strings.HasPrefix(v2.Observed, gotTrace+"\n--- output"))
 		}
 		if v2.Discard != "" || refused {
 			continue
